@@ -113,7 +113,8 @@ def run_property(prop, tier, seed):
                 faults.append(f'{ob.name}: solvers disagree ({res.get("detail")})')
                 continue
             if ob.expect == 'sat':
-                canary_total += 1
+                if res['verdict'] != 'unknown':
+                    canary_total += 1
                 if res['verdict'] == 'sat':
                     canary_sat += 1
                 continue
